@@ -69,8 +69,10 @@ pub uninterp spec fn det_rng<R>() -> bool;
 pub uninterp spec fn fp_draw<R>(pre: R) -> (Fp, R);
 pub uninterp spec fn fp_random_post<R>(rng: R, r: Fp) -> bool;
 
+/// provenance marker: true only of values returned by `Fp::random` called with an RNG argument of type R
+pub uninterp spec fn fp_drawn_from<R>(r: Fp) -> bool;
 pub assume_specification<R: RngCore>[<Fp as Field>::random](rng: R) -> (r: Fp)
-    ensures fp_random_post::<R>(rng, r);
+    ensures fp_random_post::<R>(rng, r), fp_drawn_from::<R>(r);
 
 pub broadcast axiom fn ax_fp_random_mutref<R: RngCore>(rng: &mut R, r: Fp)
     ensures (#[trigger] fp_random_post::<&mut R>(rng, r) && det_rng::<R>())
